@@ -48,7 +48,7 @@ func (a *Analysis) isPureModuleFunc(fn *ssa.Function) bool {
 		for _, in := range b.Instrs {
 			switch x := in.(type) {
 			case *ssa.Store:
-				if _, ok := x.Addr.(*ssa.Alloc); !ok {
+				if !addrIsLocal(x.Addr) {
 					return false
 				}
 			case *ssa.MapUpdate, *ssa.Send, *ssa.Go, *ssa.Defer, *ssa.Panic, *ssa.RunDefers:
@@ -68,6 +68,9 @@ func (a *Analysis) isPureModuleFunc(fn *ssa.Function) bool {
 				if pureFuncs[sc.String()] {
 					continue
 				}
+				if !a.P.InModule(sc) && sc.Signature.Recv() != nil && pureMethodNames[sc.Name()] && !returnsError(sc.Signature) {
+					continue // getter of a dependency type (time.Time.Add, url.URL.String)
+				}
 				if !a.isPureModuleFunc(sc) {
 					return false
 				}
@@ -76,6 +79,23 @@ func (a *Analysis) isPureModuleFunc(fn *ssa.Function) bool {
 	}
 	a.pureMemo[fn] = true
 	return true
+}
+
+// addrIsLocal: the address lies in memory allocated by this function call (a local, or an element/field of one).
+func addrIsLocal(v ssa.Value) bool {
+	for i := 0; i < 6; i++ {
+		switch x := v.(type) {
+		case *ssa.Alloc:
+			return true
+		case *ssa.IndexAddr:
+			v = x.X
+		case *ssa.FieldAddr:
+			v = x.X
+		default:
+			return false
+		}
+	}
+	return false
 }
 
 func constString(c *ssa.Const) string {
@@ -267,6 +287,21 @@ func (fc *FuncCtx) ap0(v ssa.Value) string {
 				}
 				if sv := lastStoreInBlock(al, x); sv != nil {
 					return fc.AP(sv)
+				}
+				// a variable captured by a closure and assigned once: named by the assigned value, as in the closure
+				if sv := capturedSingleStore(al); sv != nil {
+					if st := storeOf(al); st != nil && (st.Block() == x.Block() || st.Block().Dominates(x.Block())) {
+						return fc.AP(sv)
+					}
+				}
+			}
+			if fv, ok := x.X.(*ssa.FreeVar); ok {
+				// load of a captured variable: the value its declaring function assigned (in that function's terms)
+				if sv := capturedValue(x); sv != ssa.Value(x) && fv.Parent().Parent() != nil {
+					if fc.parent != nil && fc.parent.Fn == fv.Parent().Parent() {
+						return fc.parent.AP(sv)
+					}
+					return fc.A.Ctx(fv.Parent().Parent()).AP(sv)
 				}
 			}
 			return fc.AP(x.X)
@@ -511,6 +546,15 @@ func sortedKeys[V any](m map[string]V) []string {
 	return ks
 }
 
+func storeOf(al *ssa.Alloc) *ssa.Store {
+	for _, r := range *al.Referrers() {
+		if st, ok := r.(*ssa.Store); ok && st.Addr == ssa.Value(al) {
+			return st
+		}
+	}
+	return nil
+}
+
 // lastStoreInBlock: for a load of a local that does not escape, the value of the last store to it that
 // precedes the load in the same block (go/ssa spills results to locals in functions with defer).
 func lastStoreInBlock(al *ssa.Alloc, load *ssa.UnOp) ssa.Value {
@@ -535,6 +579,102 @@ func lastStoreInBlock(al *ssa.Alloc, load *ssa.UnOp) ssa.Value {
 		}
 	}
 	return nil
+}
+
+// closureBinding: the value bound to free variable fv where its closure is created in the enclosing function (nil
+// unless the closure is created exactly once).
+func closureBinding(fv *ssa.FreeVar) ssa.Value {
+	fn := fv.Parent()
+	if fn == nil || fn.Parent() == nil {
+		return nil
+	}
+	idx := -1
+	for i, f := range fn.FreeVars {
+		if f == fv {
+			idx = i
+		}
+	}
+	var bind ssa.Value
+	n := 0
+	for _, b := range fn.Parent().Blocks {
+		for _, in := range b.Instrs {
+			if mc, ok := in.(*ssa.MakeClosure); ok && mc.Fn == ssa.Value(fn) && idx >= 0 && idx < len(mc.Bindings) {
+				bind = mc.Bindings[idx]
+				n++
+			}
+		}
+	}
+	if n != 1 {
+		return nil
+	}
+	return bind
+}
+
+// capturedSingleStore: al is a variable captured by reference; if it is assigned exactly once in the function that
+// declares it and no closure assigns it, the assigned value.
+func capturedSingleStore(al *ssa.Alloc) ssa.Value {
+	var st *ssa.Store
+	for _, r := range *al.Referrers() {
+		switch y := r.(type) {
+		case *ssa.Store:
+			if y.Addr != ssa.Value(al) {
+				return nil
+			}
+			if st != nil {
+				return nil
+			}
+			st = y
+		case *ssa.UnOp, *ssa.DebugRef:
+		case *ssa.MakeClosure:
+			cf, ok := y.Fn.(*ssa.Function)
+			if !ok {
+				return nil
+			}
+			for i, bnd := range y.Bindings {
+				if bnd != ssa.Value(al) || i >= len(cf.FreeVars) {
+					continue
+				}
+				for _, r2 := range *cf.FreeVars[i].Referrers() {
+					switch z := r2.(type) {
+					case *ssa.UnOp, *ssa.DebugRef:
+					case *ssa.Store:
+						if z.Addr == ssa.Value(cf.FreeVars[i]) {
+							return nil
+						}
+					default:
+						return nil
+					}
+				}
+			}
+		default:
+			return nil
+		}
+	}
+	if st == nil {
+		return nil
+	}
+	return st.Val
+}
+
+// capturedValue: v is a load of a captured variable inside a closure: the value the enclosing function assigned to
+// that variable (when it is assigned once); otherwise v itself.
+func capturedValue(v ssa.Value) ssa.Value {
+	ld, ok := v.(*ssa.UnOp)
+	if !ok || ld.Op != token.MUL {
+		return v
+	}
+	fv, ok := ld.X.(*ssa.FreeVar)
+	if !ok {
+		return v
+	}
+	al, ok := closureBinding(fv).(*ssa.Alloc)
+	if !ok {
+		return v
+	}
+	if sv := capturedSingleStore(al); sv != nil {
+		return sv
+	}
+	return v
 }
 
 // Resolve looks through loads of non-escaping locals.
